@@ -278,8 +278,6 @@ theorem wal_layout_ok :
     off_WBSET_len + w_WBSET_len = sz_WBSET ∧ off_WBCOPY_noff + w_WBCOPY_noff = sz_WBCOPY ∧
     off_WBRESIZE_nsize + w_WBRESIZE_nsize = sz_WBRESIZE ∧ PAGE_SIZE = 4096 := by decide
 
-example : crcTable.size = 256 := rfl
-
 /-- a small log: separator (len 36), one `WBSET` (val 7, off 2, len 3), one savepoint -/
 def exLog : Bytes :=
   [127,0,0,0, 0,0,0,0, 36,0,0,0] ++ [1,0,0,0, 7,0,0,0, 2,0,0,0,0,0,0,0, 3,0,0,0,0,0,0,0] ++ [5,0,0,0, 1,2,3,4,5,6,0,0]
